@@ -630,7 +630,8 @@ def run_array(case):
     except Exception as e:
         probs.append(('split:sanity', 'split_legs result fails test_sanity: %s' % e))
     tags.append('split.branch=' + ('no-blocks' if res.stored_blocks == 0 else 'single-block-single-row'
-                                   if res.stored_blocks == 1 and all(res.legs[k].q_map.shape[0] == 1 for k in pipe_axes) else 'worker'))
+                                   if res.stored_blocks == 1 and all(getattr(res.legs[k], 'q_map', np.zeros((2, 0))).shape[0] == 1 for k in pipe_axes)
+                                   else 'worker'))
     exp_sp = np.transpose(ad, order)
     spd = sp.to_ndarray()
     if spd.shape != exp_sp.shape or not np.array_equal(spd, exp_sp):
